@@ -513,7 +513,8 @@ class BusExternalAuthenticator :
         self.creds = protocol._unix_creds
 
     def step(self, arg):
-        if not self.creds:
+        # SO_PEERCRED on a socket that is not a UNIX socket yields (0, -1, -1)
+        if not self.creds or self.creds[1] < 0:
             return ('REJECT', 'Unix credentials not available')
         if not self.ok:
             self.ok = True
@@ -691,8 +692,10 @@ class BusAuthenticator :
 
     def _auth_BEGIN(self, line):
         if self.state == 'WaitingForBegin':
-            self.authenticated = True
+            # the name first: if it cannot be determined the peer must not
+            # be left marked as authenticated
             self.guid = self.current_mech.getUserName()
+            self.authenticated = True
             self.current_mech = None
         else:
             raise DBusAuthenticationFailed('Protocol violation')
